@@ -216,6 +216,11 @@ class PiecewiseEstimator(BaseEstimator):
         * `dim_`: dimension of the output
         * `mean_`: average targets
         """
+        if isinstance(y, (pandas.Series, pandas.DataFrame)):
+            # rows are matched by position, not by index label
+            y = y.values
+        if isinstance(sample_weight, pandas.Series):
+            sample_weight = sample_weight.values
         if len(y.shape) == 2:
             if y.shape[-1] == 1:
                 y = y.ravel()
